@@ -179,7 +179,9 @@ class ConcatenatedLazyIndexer(LazyIndexer):
                     chunk_mask = (indexers == ind)
                     # Insert all selected data originating from same indexer into final array
                     if chunk_mask.any():
-                        out_data[chunk_mask] = self.indexers[ind][tuple([local_indices[chunk_mask]] + keep_tail)]
+                        # An indexer may keep scalar-indexed tail dimensions (e.g. H5DataV1): bring chunk to output shape
+                        chunk = self.indexers[ind][tuple([local_indices[chunk_mask]] + keep_tail)]
+                        out_data[chunk_mask] = chunk.reshape(tuple([chunk_mask.sum()] + shape_tails))
         # Apply transform chain to output data, if any
         return reduce(lambda data, transform: transform(data, original_keep), self.transforms, out_data)
 
